@@ -760,6 +760,10 @@ impl Case<'_> {
             "spliced_transaction".to_owned()
         } else if matches!(self.d, Damage::TransplantRec { .. }) {
             "spliced_record".to_owned()
+        } else if matches!(self.d, Damage::TxDelete { idx, .. } if self.n_orig > 0 && *idx as usize % self.n_orig != 0) {
+            // Only the *leading* transaction has no anchor (open finding); a hole in the middle
+            // breaks the LSN tiling and must be refused.
+            "tx_delete_middle".to_owned()
         } else {
             self.d.stem()
         };
@@ -910,7 +914,7 @@ fn known_shape(d: &Damage, a: &Log<'_>) -> bool {
     match d {
         _ if d.cross_log() => true,
         Damage::TxSwap { .. } => true,
-        Damage::TxDelete { idx, .. } => ntx > 0 && (*idx as usize % ntx) != ntx - 1,
+        Damage::TxDelete { idx, .. } => ntx > 1 && (*idx as usize % ntx) == 0,
         Damage::RecDelete { idx, .. } => is_commit(*idx) && Some(*idx as usize % nrec.max(1)) != last_commit,
         Damage::RecDup { idx, .. } => is_commit(*idx),
         _ => false,
